@@ -67,6 +67,9 @@ pub enum Op {
     /// The node comes back, and goes away again when the `rpcs`-th RPC after that is issued (C12: an outage that hits
     /// the retried call).
     NodeUpThenDownAfter { rpcs: u32 },
+    /// The node comes back having lost its last `k` blocks (their transactions are back in its mempool); it connects
+    /// them again only after the scheduled phase (C12: a reachable node that is behind the tower's tip).
+    NodeUpBehind { k: u32 },
     /// Arms a failure of the n-th block download of the next poll.
     FetchFault { nth: u32, persistent: bool },
     /// Environment thread only: yields until the node is down (or `max` scheduling points went by).
@@ -128,6 +131,7 @@ impl Op {
             Op::NodeDown => "node_down",
             Op::NodeUp => "node_up",
             Op::NodeUpThenDownAfter { .. } => "node_up_then_down",
+            Op::NodeUpBehind { .. } => "node_up_behind",
             Op::FetchFault { .. } => "fetch_fault",
             Op::ForceVerdict { .. } => "force_verdict",
             Op::WaitNodeDown { .. } => "wait_node_down",
